@@ -1,5 +1,6 @@
-(** * Model.San — transcription of [ChessMove::from_san] (src/chess_move.rs, with the two
-    fix: commits: check marker after castling, en-passant capture without " e.p."). *)
+(** * Model.San — transcription of [ChessMove::from_san] (src/chess_move.rs, with the three
+    fix: commits: check marker after castling, en-passant capture without " e.p.", en-passant
+    capture without x rejected). *)
 From Chess Require Export Model.Fen.
 Open Scope N_scope.
 
@@ -34,9 +35,9 @@ Fixpoint san_filter (b:board) (moving:ptype) (srank sfile:option N) (dest:N) (pr
          | Some _ => Err
          | None =>
            let dest_occ := match piece_on b (mdst m) with Some _ => true | None => false end in
-           if negb takes && dest_occ then continue_
+           let ep_capture := ptype_eqb moving Pawn && negb (sq_file (msrc m) =? sq_file (mdst m)) in
+           if negb takes && (dest_occ || ep_capture) then continue_
            else
-             let ep_capture := ptype_eqb moving Pawn && negb (sq_file (msrc m) =? sq_file (mdst m)) in
              if negb ep && negb ep_capture && takes && negb dest_occ then continue_
              else san_filter b moving srank sfile dest promotion takes ep r (Some m)
          end
